@@ -6,13 +6,25 @@ Require Import SkV.C04.Table.
 Import ListNotations.
 Open Scope string_scope.
 
+(* Reviewed one-argument validators f such that `self.p = f(p)` stores p itself whenever the
+   constructor returns: f returns its argument unchanged or raises.  An sktime function is pinned by
+   a hash of its source (ast): any edit of the function changes the name the class table carries and
+   the Bridge theorem fails until the function has been reviewed again.
+   - check_sp(sp, enforce_list=False): `if sp is not None: ... elif is_int(sp) and sp >= 1: pass
+     else: raise ValueError ...; return sp` (the only rebinding, `sp = [sp]`, needs enforce_list).
+   - sklearn.neighbors._base._check_weights (scikit-learn 0.24, the release sktime 0.6.0 pins):
+     `if weights in (None, 'uniform', 'distance'): return weights; elif callable(weights): return
+     weights; else: raise ValueError`.  Not importable under scikit-learn 1.7: trusted as read. *)
+Definition identity_validators : list string := [
+  "sktime.utils.validation.forecasting.check_sp#29c48371d4";
+  "ext:sklearn.neighbors._base._check_weights" ].
+
 (* (class, parameter): the constructor does not store the argument verbatim under its own name.
    "**" = the constructor takes **kwargs (invisible to get_params). *)
 Definition known_ctor : list (string * string) := [
   ("ARIMA", "**"); ("AutoARIMA", "**"); ("AutoETS", "**"); ("PCATransformer", "**");
-  ("KNeighborsTimeSeriesClassifier", "**"); ("KNeighborsTimeSeriesClassifier", "weights");
+  ("KNeighborsTimeSeriesClassifier", "**");
   ("BaseStrategy", "estimator"); ("BaseStrategy", "name");
-  ("Deseasonalizer", "sp");
   ("ElasticEnsemble", "distance_measures"); ("ColumnEnsembleClassifier", "remainder");
   ("HIVECOTEV1", "stc_params"); ("HIVECOTEV1", "tsf_params"); ("HIVECOTEV1", "rise_params");
   ("HIVECOTEV1", "cboss_params");
@@ -32,7 +44,6 @@ Definition known_ctor : list (string * string) := [
 Definition known_guard : gknown := [
   ("*", "_SktimeForecaster", "update_predict");
   ("*", "_BaseWindowForecaster", "update_predict");
-  ("*", "OnlineEnsembleForecaster", "update_predict");
   ("*", "Detrender", "update");
   ("*", "BaseSupervisedLearningStrategy", "predict");
   ("*", "ProximityForest", "predict_proba");
@@ -42,6 +53,18 @@ Definition known_guard : gknown := [
   ("*", "ShapeDTW", "predict"); ("*", "ShapeDTW", "predict_proba");
   ("ShapeDTW", "BaseClassifier", "score");
   ("*", "_CachedTransformer", "transform") ].
+
+(* Reported by the (conservative) guard analysis but compliant with the property: reviewed, and
+   confirmed on the real object by the p_apply cases of every run (NotFittedError required).
+   - OnlineEnsembleForecaster.update_predict -> _predict_moving_cutoff reads `self.cutoff` (a plain
+     attribute set to None by the constructor: cannot raise) and sets it inside
+     `with self._detached_cutoff()` (restored in `finally`) before the first nested
+     `self.update(...)`, whose first statement is check_is_fitted(): the caller gets NotFittedError
+     and the object is left as it was. *)
+Definition benign_guard : gknown := [
+  ("*", "OnlineEnsembleForecaster", "update_predict") ].
+
+Definition guard_exceptions : gknown := List.app known_guard benign_guard.
 
 (* (owner, parameter): code of class `owner` reachable from fit / an apply-type method assigns to
    the constructor parameter. *)
